@@ -3,8 +3,6 @@ From Coq Require Import List Arith Bool Lia.
 From DS Require Import Model.ADD Spec.Count Model.Oracle Proofs.ADDProofs.
 Import ListNotations.
 
-Lemma bmasks_length n : length (bmasks n) = 2 ^ n.
-Proof. induction n as [|n IH]; [reflexivity|]. cbn [bmasks]. rewrite app_length, !map_length, IH. cbn [Nat.pow]. lia. Qed.
 
 Lemma tally_of_in_domain p target t1 t2 x : In (tally_of p target t1 t2 x) (domain (p_type p)).
 Proof.
